@@ -823,7 +823,7 @@ func (f *Frame) loopLatch(li *loopInfo, latch *ssa.BasicBlock) {
 	if li.spec != nil {
 		for i, inv := range li.spec.Invs {
 			t := f.evalClause(inv, f.cur, f.entry, nil, li)
-			f.vc.addObl(f, "inv-preserved", fmt.Sprintf("loop[%s].inv[%s].preserved@b%d", li.spec.Key, clauseName(inv, i), latch.Index), t, inv.Src, li.header.Instrs[0].Pos())
+			f.vc.addObl(f, "inv-preserved", fmt.Sprintf("loop[%s].inv[%s].preserved@%d", li.spec.Key, clauseName(inv, i), f.latchOrdinal(li, latch)), t, inv.Src, li.header.Instrs[0].Pos())
 		}
 	}
 	if len(li.frameKeys) > 0 {
@@ -833,10 +833,27 @@ func (f *Frame) loopLatch(li *loopInfo, latch *ssa.BasicBlock) {
 			entryV := f.getCell(f.entry, k, srt)
 			cur := f.getCell(f.cur, k, srt)
 			goal := fmt.Sprintf("(forall ((fr Int)) (=> (select %s fr) (= (select %s fr) (select %s fr))))", aliveEntry, cur, entryV)
-			f.vc.addObl(f, "frame", fmt.Sprintf("loop[%s].frame[%s].preserved@b%d", f.loopLabel(li), k, latch.Index), goal, "implicit frame invariant", li.header.Instrs[0].Pos())
+			f.vc.addObl(f, "frame", fmt.Sprintf("loop[%s].frame[%s].preserved@%d", f.loopLabel(li), k, f.latchOrdinal(li, latch)), goal, "implicit frame invariant", li.header.Instrs[0].Pos())
 		}
 	}
 	f.curReach = save
+}
+
+// latchOrdinal numbers the back edges of a loop in source order (stable when unrelated code is inserted elsewhere,
+// unlike SSA block indices).
+func (f *Frame) latchOrdinal(li *loopInfo, latch *ssa.BasicBlock) int {
+	n := 0
+	for b := range li.blocks {
+		if b.Index < latch.Index {
+			for _, s := range b.Succs {
+				if s == li.header {
+					n++
+					break
+				}
+			}
+		}
+	}
+	return n
 }
 
 // loopLabel names a loop in obligation labels; loops of inlined functions carry the function's name.
@@ -1428,6 +1445,15 @@ func (f *Frame) execSlice(x *ssa.Slice) {
 			hi = f.sval(x.High).t
 		}
 		f.safety("slice-bounds", and(sx("<=", "0", lo), sx("<=", lo, hi), sx("<=", hi, sx("len_"+v.s, v.t))), x.Pos())
+		if x.High != nil {
+			// s[:k] keeps the backing array: an append to the result may overwrite elements still visible through
+			// other slice values. Slices are modelled as values (no aliasing), so a function that both shortens a slice
+			// and appends is outside the subset.
+			vc.sliceShortened = vc.P.fset.Position(x.Pos()).String()
+			if vc.appendSeen != "" {
+				vc.errf("%s: a slice is shortened (%s) and appended to (%s) in one function: backing-array aliasing is outside the value model of slices", vc.P.fnKey(vc.fn), vc.sliceShortened, vc.appendSeen)
+			}
+		}
 		if lo == "0" {
 			f.vals[x] = Val{sx("mk_"+v.s, sx("nil_"+v.s, v.t), hi, sx("el_"+v.s, v.t)), v.s, x.Type()}
 			return
